@@ -161,6 +161,44 @@ impl StorageEngine {
 //@@ body
 //@@ end
 
+// SRANDMEMBER: a read (lazy purge only). count >= 0: distinct members, min(count, cardinality) of them; count < 0: |count| picks, repeats
+// allowed, every one a current member. The shuffle is ASSUMED only to permute, `choose` only to return an element of the slice it is given.
+//@@ unit srandmember fn src/storage/engine.rs StorageEngine::srandmember
+//@@   params drop "db: DatabaseIndex" add "shard_guard: &mut DatabaseShard"
+//@@   rewrite R2
+//@@   rewrite RXPR "set.iter().cloned().collect()" "verif_members_vec(set)"
+//@@   rewrite RT "let mut rng = rand::thread_rng();" ""
+//@@   rewrite RT "result.shuffle(&mut rng);" "verif_shuffle(&mut result);"
+//@@   rewrite RT "std::cmp::min(count as usize, members.len())" "verif_min(count as usize, members.len())"
+//@@   rewrite RT "members.choose(&mut rng)" "verif_choose(&members)"
+//@@   rewrite RT "let mut result = Vec::new();" "let mut result: Vec<Vec<u8>> = Vec::new();"
+//@@   rewrite RFORC 0
+//@@   at "if members.is_empty()"
+//@@|     proof { members@.unique_seq_to_set(); }
+//@@   loop 0
+//@@|     invariant forall|j: int| 0 <= j < result@.len() ==> members@.contains(#[trigger] result@[j]), result@.len() <= ___n <= ___end, ___end == n, members@.len() > 0,
+//@@|     decreases ___end - ___n,
+//@@   at "let n = std::cmp::min(count as usize, members.len());"
+//@@|     let ghost all = members@;
+//@@   at "result.truncate(n);"
+//@@|     let ghost shuffled = result@;
+//@@   after "result.truncate(n);"
+//@@|     proof {
+//@@|         assert forall|i: int, j: int| 0 <= i < j < result@.len() implies result@[i] != result@[j] by { assert(shuffled[i] != shuffled[j]); }
+//@@|         assert forall|j: int| 0 <= j < result@.len() implies all.to_set().contains(#[trigger] result@[j]) by { assert(shuffled[j] == result@[j]); assert(shuffled.to_set().contains(shuffled[j])); }
+//@@|     }
+    fn srandmember(&self, shard_guard: &mut DatabaseShard, key: &[u8], count: i64) -> (r: Result<Vec<Vec<u8>>>)
+        ensures
+            unchanged(eff(*old(shard_guard), key_of(key@)), sv(*final(shard_guard))),
+            holds_non_set(eff(*old(shard_guard), key_of(key@)), key_of(key@)) ==> r is Err,
+            !eff(*old(shard_guard), key_of(key@)).data.contains_key(key_of(key@)) ==> (r matches Ok(v) && v@.len() == 0),
+            set_at(eff(*old(shard_guard), key_of(key@)), key_of(key@)) matches Some(m) ==> (r matches Ok(v)
+                && (forall|j: int| 0 <= j < v@.len() ==> m.contains(#[trigger] v@[j]))
+                && (count >= 0 ==> v@.no_duplicates() && v@.len() == (if count as int <= m.len() { count as int } else { m.len() as int }))
+                && (count < 0 && m.len() > 0 ==> v@.len() <= -(count as int))),
+//@@ body
+//@@ end
+
 //@@ unit scard fn src/storage/engine.rs StorageEngine::scard
 //@@   params drop "db: DatabaseIndex" add "shard_guard: &mut DatabaseShard"
 //@@   rewrite R2
@@ -291,6 +329,12 @@ pub fn verif_members_vec(set: &HashSet<Vec<u8>>) -> (r: Vec<Vec<u8>>) ensures r@
 /// `members.shuffle(&mut rng)` with the thread-local generator (RT site, two statements): ASSUMED to permute — the same members, each once
 #[verifier::external_body]
 pub fn verif_shuffle(v: &mut Vec<Vec<u8>>) ensures final(v)@.no_duplicates() == old(v)@.no_duplicates(), final(v)@.to_set() == old(v)@.to_set(), final(v)@.len() == old(v)@.len(), { unimplemented!() }
+/// i64::unsigned_abs (std): the magnitude, exact for every i64 (i64::MIN -> 2^63)
+pub assume_specification[ i64::unsigned_abs ](x: i64) -> (r: u64)
+    ensures r as int == (if x >= 0 { x as int } else { -(x as int) });
+/// `members.choose(&mut rng)` (RT site): ASSUMED — some element of the slice, None only when it is empty
+#[verifier::external_body]
+pub fn verif_choose<'a>(v: &'a Vec<Vec<u8>>) -> (r: Option<&'a Vec<u8>>) ensures v@.len() == 0 ==> r is None, v@.len() > 0 ==> (r matches Some(x) && v@.contains(*x)), { unimplemented!() }
 /// `std::cmp::min` on usize (RT site)
 #[verifier::external_body]
 pub fn verif_min(a: usize, b: usize) -> (r: usize) ensures r == (if a <= b { a } else { b }), { unimplemented!() }
